@@ -194,19 +194,21 @@ handler!(get_status(state: Extension<Arc<GlobalState>>) -> impl IntoResponse {
 });
 
 handler!(get_alive(state: Extension<Arc<GlobalState>>) -> impl IntoResponse {
+    // take the registry mutex only to copy the list: create_context needs it for every new
+    // connection, and reading a context may have to wait for whoever holds its lock
+    let alive: Vec<_> = state
+        .contexts
+        .alive
+        .lock()
+        .await
+        .values()
+        .filter_map(Weak::upgrade)
+        .collect();
     Json(
-        futures::stream::iter(
-            state
-                .contexts
-                .alive
-                .lock()
-                .await
-                .values()
-                .filter_map(Weak::upgrade),
-        )
-        .then(|x| async move { x.read().await.props().clone() })
-        .collect::<Vec<_>>()
-        .await,
+        futures::stream::iter(alive)
+            .then(|x| async move { x.read().await.props().clone() })
+            .collect::<Vec<_>>()
+            .await,
     )
 });
 
